@@ -806,7 +806,7 @@ class Gen:
             tgt = ("arr", name, [self.index_expr(ub) for ub in self.arrays[name]])
             return ("let", tgt, self.sexpr() if name.endswith("$") else self.nexpr())
         if c < 0.92:
-            key = tuple(r.randint(1, 4) for _ in range(r.randint(1, 3)))
+            key = tuple(r.randint(-2, 3) for _ in range(r.randint(1, 3)))      # negative subscripts are ordinary keys of the store
             if r.random() < 0.25:
                 return ("put", ("s", self.sexpr()), [("num", str(k), float(k)) for k in key])
             self.nput.append(key)
@@ -1197,7 +1197,8 @@ def gen_cases(ctx):
 def malform(lines, r):
     """(kind, lines') : one construct made invalid on the executed path (inserted as the first executed statements)"""
     kinds = ["type-mismatch-add", "type-mismatch-assign", "goto-missing-line", "return-without-gosub", "next-without-for", "wend-without-while", "read-out-of-data", "subscript-beyond-dim",
-             "dim-twice", "for-without-next", "string-in-if", "negative-fractional-power", "on-goto-missing-line", "string-function-on-number"]
+             "dim-twice", "for-without-next", "string-in-if", "negative-fractional-power", "on-goto-missing-line", "string-function-on-number",
+             "negative-subscript", "negative-subscript-computed", "negative-subscript-read"]
     kind = r.choice(kinds)
     first = lines[0][0]
     bad = {
@@ -1210,6 +1211,11 @@ def malform(lines, r):
         "read-out-of-data": [("restore", None), ("read", [("var", "a")] * 400)],
         "subscript-beyond-dim": [("dim", [("zarr", [("num", "3", 3.0)])]), ("let", ("arr", "zarr", [("num", "4", 4.0)]), ("num", "1", 1.0))],
         "dim-twice": [("dim", [("zarr", [("num", "3", 3.0)])]), ("dim", [("zarr", [("num", "3", 3.0)])])],
+        # subscripts are rounded to the nearest integer (floor(x + 0.5)): -1 and -0.6 are below the first element
+        "negative-subscript": [("dim", [("zarr", [("num", "3", 3.0)])]), ("let", ("arr", "zarr", [("un", "-", ("num", "1", 1.0))]), ("num", "1", 1.0))],
+        "negative-subscript-computed": [("dim", [("zarr", [("num", "3", 3.0)])]), ("let", ("var", "zz8"), ("num", "0.4", 0.4)),
+                                        ("let", ("arr", "zarr", [("bin", "-", ("var", "zz8"), ("num", "1", 1.0))]), ("num", "1", 1.0))],
+        "negative-subscript-read": [("dim", [("zarr", [("num", "3", 3.0)])]), ("let", ("var", "a"), ("arr", "zarr", [("un", "-", ("num", "2", 2.0))]))],
         "for-without-next": [("for", ("var", "zz9"), ("num", "5", 5.0), ("num", "1", 1.0), None)],
         "string-in-if": [("if", ("str", "abc"), [("let", ("var", "a"), ("num", "1", 1.0))], None)],
         "negative-fractional-power": [("let", ("var", "a"), ("bin", "^", ("un", "-", ("num", "2", 2.0)), ("num", "0.5", 0.5)))],
